@@ -458,18 +458,11 @@ func mergeChunks(a, b reflect.Value) (reflect.Value, bool) {
 		n := reflect.New(a.Type()).Elem()
 		ok := true
 		for i := 0; i < a.NumField(); i++ {
-			fa, fb := a.Field(i), b.Field(i)
-			if fa.Kind() == reflect.Interface {
-				m, o := mergeChunks(fa, fb)
-				ok = ok && o
-				if m.IsValid() {
-					n.Field(i).Set(m)
-				}
-				continue
-			}
-			m, o := mergeChunks(fa, fb)
+			m, o := mergeChunks(a.Field(i), b.Field(i))
 			ok = ok && o
-			n.Field(i).Set(m)
+			if m.IsValid() {
+				n.Field(i).Set(m)
+			}
 		}
 		return n, ok
 	default:
